@@ -402,3 +402,14 @@ reg("C20", "c20", [("roundtrip", "plain", 6), ("histories", "asan", 10)], "explo
                "with a sharing model checked after every step under ASan.",
     level_note="Trusts numpy's buffer consumer and pickle/copy of the standard library.",
     design_ref="4/C20")
+
+
+# ---- parts added after the first version of the texts above
+from checks.registry import REGISTRY as _R
+_R["C09"]["level_text"] += (" Part refinement: the solve counts of a counting user KKT solver must be linear in 'refinement' (0, 1, 2) and the "
+                            "absent option must equal the documented default; GLPK calls and the back-ends' module options are part "
+                            "of the isolation images.")
+_R["C10"]["level_text"] += (" Part restore: steep-exponential cpl instances with every factorization failing together with the retry that "
+                            "follows cpl's restore (half of them with a user-defined y type); 'unknown' results are recomputed field by field.")
+for _p, _t in (("C11", "generator"), ("C13", "histories"), ("C14", "generated MPS files of the reader part")):
+    _R[_p]["level_text"] += " A coverage-guided part (atheris/libFuzzer on cvxopt/modeling.py) drives the same %s with the same oracle." % _t
